@@ -196,7 +196,7 @@ def e_helper_forms(ck, F):
         msg = 'is not a function of bits_read alone'
     else:
         try:
-            for p_ in range(0, 4096):
+            for p_ in (range(0, 1 << 17) if getattr(ck, 'tier', 'quick') == 'thorough' else range(0, 4096)):
                 if ev(rs[0], {POS: p_}) != (8 - p_ % 8) % 8: msg = 'differs at bits_read = %d' % p_; break
         except (Unanalysable, NotExact) as e_: msg = str(e_)
     if msg is None: ck.ok('E', 'realignment_bits = (8 - bits_read mod 8) mod 8 (its term %s tabulated over 0..4095)' % nshow(rs[0]), where_of(b))
@@ -223,6 +223,33 @@ def e_helper_forms(ck, F):
     for bb, t in its:
         e = expr_of(F, b, t['args'][0])
         if ematch(('agg', 'Range', ('c', 0), ('param', 2, ())), e) is not None: good = True
+    if not good:
+        # the other spelling: a local starts as k, the loop runs while it is > 0 (or != 0) and every cycle takes exactly 1 off
+        from ..termination import _cycle_avoiding
+        from ..dataflow import _expr_rv
+        for h, body in g.loops().items():
+            for bb in body:
+                t = g.blocks[bb]['term']
+                if t['t'] != 'switch' or not [x for x in g.succ[bb] if x not in body] or _cycle_avoiding(g, h, body, set(), {bb}): continue
+                o = D.origin(t['on'])
+                if not (o[0] == 'rv' and o[2]['rv']['r'] == 'bin'): continue
+                rv = o[2]['rv']
+                for ctr, bnd, ops in ((rv['a'], rv['b'], ('Gt', 'Ne')), (rv['b'], rv['a'], ('Lt', 'Ne'))):
+                    if rv['op'] not in ops: continue
+                    arms_ = {int(v): to for v, to in t['arms']}
+                    if arms_.get(0) in body and t['otherwise'] not in body: continue          # must continue while the comparison holds
+                    if expr_of(F, b, bnd) != ('c', 0): continue
+                    co = D.origin(ctr)
+                    if co[0] != 'multi': continue
+                    L = co[1]
+                    ds = D.defs.get(L, [])
+                    init = [d for d in ds if d[1] not in body]; step = [d for d in ds if d[1] in body]
+                    if len(init) != 1 or len(step) != 1 or init[0][0] != 'assign' or step[0][0] != 'assign': continue
+                    if expr_of(F, b, init[0][3]['rv']['a']) != ('param', 2, ()) if init[0][3]['rv']['r'] == 'use' else True: continue
+                    e = _expr_rv(F, b, step[0][3]['rv'], 0, {})
+                    if not (e[0] == 'op' and e[1] == 'Sub' and e[2] == ('multi', L) and e[3] == ('c', 1)): continue
+                    if _cycle_avoiding(g, h, body, set(), {step[0][1]}): continue
+                    good = True
     if good: ck.ok('E', 'buffer_bytes(k) iterates 0..k', where_of(b))
     else: ck.violation('E', 'E : buffer_bytes : count', where_of(b), 'buffer_bytes does not iterate 0..bytes_needed')
     # commit / rollback: shared with C01.M10 (check_commit, check_rollback below)
@@ -329,13 +356,13 @@ def h_msb_first(ck, F):
         raise Unanalysable('skip count %s' % expr_str(e))
     okit = False
     if len(it) == 1 and ematch(('callp', 'Iterator::skip', ('callp', 'VecDeque::<T, A>::iter', ('param', 1, (rr.F_BUFFER,))), ANY), it[0]) is not None:
-        try: okit = all(ev_df(it[0][3], p_) == p_ // 8 for p_ in range(0, 512))
+        try: okit = all(ev_df(it[0][3], p_) == p_ // 8 for p_ in range(0, 1 << 16 if getattr(ck, 'tier', 'quick') == 'thorough' else 512))
         except (Unanalysable, ZeroDivisionError): okit = False
     if not okit: bad.append('the loop does not visit buffer.iter().skip(bits_read / 8): %s' % [expr_str(x) for x in it])
     # initial values
     if [nshow(x) for x in init_acc] != ['zero()']: bad.append('the accumulator starts as %s' % [nshow(x) for x in init_acc])
     try:
-        if len(init_off) != 1 or any(ev(init_off[0], {POS: p_}) != p_ % 8 for p_ in range(0, 256)): bad.append('the bit offset starts as %s' % [nshow(x) for x in init_off])
+        if len(init_off) != 1 or any(ev(init_off[0], {POS: p_}) != p_ % 8 for p_ in range(0, 1 << 16 if getattr(ck, 'tier', 'quick') == 'thorough' else 256)): bad.append('the bit offset starts as %s' % [nshow(x) for x in init_off])
     except (Unanalysable, NotExact) as e_: bad.append('initial offset: %s' % e_)
     if [nshow(v) for _, v in upd_off] != ['0']: bad.append('the bit offset is updated to %s inside the loop' % [nshow(v) for _, v in upd_off])
     if len(upd_need) != 1 or len(upd_acc) != 2: bad.append('expected one update of the remaining count and two of the accumulator in the loop, found %d / %d' % (len(upd_need), len(upd_acc)))
@@ -480,7 +507,7 @@ def w_width_prologue(ck, F):
     ERR, ZERO = 'Err(InternalDecoderError())', 'Ok(zero())'
     msg = None; free_seen = set()
     try:
-        for W in (8, 16, 32):
+        for W in ((8, 16, 32, 64, 128) if getattr(ck, 'tier', 'quick') == 'thorough' else (8, 16, 32)):
             buffered = set()
             for n in list(range(1, W + 9)) + [0]:
                 fired = set()
